@@ -171,6 +171,8 @@ def pl_term(t):
 def pl_goal(g):
     if g[0] == '=':
         return '%s = %s' % (pl_term(g[1][0]), pl_term(g[1][1]))
+    if g[0] == '\\=' and len(g[1]) == 2:
+        return '%s \\= %s' % (pl_term(g[1][0]), pl_term(g[1][1]))
     if not g[1]:
         return g[0]
     return '%s(%s)' % (g[0], ','.join(pl_term(a) for a in g[1]))
@@ -551,6 +553,26 @@ def slot_footprints(case, hist):
             if k is not None:
                 T.add(k)
                 W.add(k)
+        # the meta-call builtins run a goal that is given as a term (World.metastep): its footprint is that of the goal;
+        # a goal that is a variable at compile time is not known statically
+        meta = None
+        if name == '\\=' and len(args) == 2:
+            goal('=', args, T, W, seen)
+        elif name == 'once' and len(args) == 1:
+            meta = (args[0], [])
+        elif name == 'findall' and len(args) == 3:
+            meta = (args[1], [])
+        elif name == 'call' and args:
+            meta = (args[0], list(args[1:]))
+        if meta:
+            t, extra = meta
+            if t[0] == 'f':
+                goal(t[1], list(t[2]) + extra, T, W, seen)
+            elif t[0] == 'a':
+                goal(t[1], extra, T, W, seen)
+            elif t[0] == 'v':
+                T.add('*')
+                W.add('*')
         if key in seen:
             return
         seen.add(key)
@@ -898,11 +920,63 @@ def gen_db_goal(rng, vs, body):
     else:
         body.append([b, [t]])
 
-def gen_script(rng, writes=False):
+META_BUILTINS = ('\\=', 'once', 'call', 'findall')
+
+def gen_callable(rng, vs, cands, writes, depth=0):
+    """a term that is run as a goal by once / call / findall: name(args) over a fact predicate or an earlier rule predicate,
+    (writes) a database builtin on a literal, or one of the meta-call builtins again"""
+    r = rng.random()
+    if depth < 1 and r < 0.15:
+        k = rng.choice(['once', 'call', 'findall'])
+        g = gen_callable(rng, vs, cands, writes, depth + 1)
+        if k == 'findall':
+            return ['f', 'findall', [rand_open(rng, vs, 1, 0.7, py=False), g, ['v', rng.choice(vs)]]]
+        return ['f', k, [g]]
+    if writes and r < 0.35:
+        b = rng.choice(['assertz', 'asserta', 'retract', 'retract', 'retractall'])
+        name, ar = rng.choice(FACT_PREDS)
+        t = ['f', name, [rand_open(rng, vs, 1, 0.65, py=False) for _ in range(ar)]] if ar else ['a', name]
+        return ['f', b, [t]]
+    gn, ga = rng.choice(cands)
+    return ['f', gn, [rand_open(rng, vs, 1, 0.75, py=False) for _ in range(ga)]] if ga else ['a', gn]
+
+def gen_meta_goal(rng, vs, body, cands, writes, py=False, direct=False):
+    """X \\= Y, once(G), call(G, A..) (G with its last arguments split off, or a variable bound by a preceding '='),
+    findall(T, G, L); rarely a goal that is not callable (an unbound variable, a number: YP.call raises)"""
+    k = rng.choice(['\\=', 'once', 'once', 'call', 'call', 'findall', 'findall', 'findall'])
+    if k == '\\=':
+        body.append(['\\=', [rand_open(rng, vs, 1, 0.7, py=py), rand_open(rng, vs, 1, 0.5, py=py)]])
+        return
+    g = gen_callable(rng, vs, cands, writes)
+    r = 1.0 if direct else rng.random()
+    if r < 0.12:
+        v = ['v', rng.choice(vs)]
+        body.append(['=', [v, g]])
+        g = v
+    elif r < 0.135:
+        g = ['v', rng.choice(vs)]
+    elif r < 0.145:
+        g = ['i', 7]
+    if k == 'once':
+        body.append(['once', [g]])
+    elif k == 'call':
+        extra = []
+        if g[0] == 'f' and g[2] and rng.random() < 0.6:
+            j = rng.randrange(1, len(g[2]) + 1)
+            extra = g[2][len(g[2]) - j:]
+            g = ['f', g[1], g[2][:len(g[2]) - j]] if len(g[2]) > j else ['a', g[1]]
+        body.append(['call', [g] + extra])
+    else:
+        q = rng.random()
+        bag = ['v', rng.choice(vs)] if q < 0.8 else ['a', '[]'] if q < 0.87 else terms.mklist([rand_open(rng, vs, 1, 0.8, py=py)], ['v', rng.choice(vs)])
+        body.append(['findall', [rand_open(rng, vs, 1, 0.75, py=py), g, bag]])
+
+def gen_script(rng, writes=False, meta=False):
     """a few rule predicates; bodies call fact predicates, '=' and earlier rule predicates, and (writes) the database
-    builtins asserta / assertz / retract / retractall"""
+    builtins asserta / assertz / retract / retractall, and (meta) the meta-call builtins \\=, once, call/N, findall"""
     preds = []
     pw = rng.choice([0.15, 0.3, 0.45]) if writes else 0.0
+    pm = rng.choice([0.25, 0.4, 0.55]) if meta else 0.0
     k = rng.choice([1, 2, 2, 3, 4])
     chosen = sorted(rng.sample(range(len(RULE_PREDS)), k))
     for idx in chosen:
@@ -917,6 +991,8 @@ def gen_script(rng, writes=False):
                 r = rng.random()
                 if rng.random() < pw:
                     gen_db_goal(rng, vs, body)
+                elif meta and rng.random() < pm:
+                    gen_meta_goal(rng, vs, body, list(PURE_PREDS) + [RULE_PREDS[j] for j in range(idx)], writes)
                 elif r < 0.15:
                     body.append(['=', [rand_open(rng, vs, 1, 0.6, py=False), rand_open(rng, vs, 1, 0.5, py=False)]])
                 else:
@@ -953,6 +1029,12 @@ def gen_history(rng, case, eid, nops, base_facts):
             vs = fresh(max(1, ar))
             t = ['f', name, [rand_open(rng, vs, 1, 0.7) for _ in range(ar)]] if ar else ['a', name]
             return b, [t], vs
+        if case.get('meta') and rng.random() < 0.22:
+            # a meta-call builtin as a query of its own (findall runs its goal to exhaustion inside one next())
+            vs = fresh(2)
+            body = []
+            gen_meta_goal(rng, vs, body, (have or []) + list(FACT_PREDS) + RULE_PREDS, case.get('writes'), py=True, direct=True)
+            return body[-1][0], body[-1][1], vs
         if have and rng.random() < 0.5:
             name, ar = rng.choice(have)
         else:
@@ -1003,6 +1085,8 @@ def gen_history(rng, case, eid, nops, base_facts):
             ops.append(['start', q, name, args])
             live[q] = vs
             est[q] = nfacts.get((name, len(args)), 0) + (2 if name in rule_names else 0)
+            if name in META_BUILTINS:
+                est[q] = 1 if name != 'call' else 2
             if name in DB_BUILTINS:
                 t = args[0]
                 key = (t[1], len(t[2]) if t[0] == 'f' else 0)
@@ -1043,11 +1127,14 @@ def gen_schedule(rng, lens):
         rem[cur] -= 1
     return sched
 
-def gen_case(rng, big=False):
+def gen_case(rng, big=False, meta=False):
     neng = rng.choice([2, 2, 3])
     writes = rng.random() < 0.5
     case = {'neng': neng, 'writes': writes,
-            'scripts': [gen_script(rng, writes and rng.random() < 0.8) for _ in range(rng.choice([1, 2, 2, 3]))]}
+            'scripts': [gen_script(rng, writes and rng.random() < 0.8, meta) for _ in range(rng.choice([1, 2, 2, 3]))]}
+    if meta:
+        case['meta'] = True
+        case['family'] = 'mb'
     shared_keys = rng.sample(FACT_PREDS, rng.choice([2, 3, 4]))
     hist = []
     for e in range(neng):
@@ -1547,7 +1634,7 @@ def shared_profile(case):
 
 def gen(rng, tier):
     quick = tier == 'quick'
-    n = 225 if quick else 2600
+    n = 185 if quick else 2200
     cases = [gen_case(rng, big=(not quick and i % 10 == 0)) for i in range(n)]
     # the new families get random generators of their own, so that the ordinary cases of a seed stay what they were
     r2 = random.Random(rng.random())
@@ -1564,6 +1651,10 @@ def gen(rng, tier):
     if quick:
         # one case of medium depth, still inside what the Coq model evaluates in seconds
         mini.append(gen_sc_case(r2, 5, 8, 24, True))
+    # family MB (own random stream): the mixed histories with rule bodies and queries that use \\=, once, call/N, findall
+    r5 = random.Random(r4.random())
+    mb = [gen_case(r5, big=(not quick and i % 10 == 0), meta=True) for i in range(40 if quick else 400)]
+    sh = sh + mb
     # the expensive cases are spread over the list (the implementation runs in chunks of consecutive cases)
     extra = nl + mini + sh
     r3.shuffle(extra)
@@ -1808,6 +1899,7 @@ def distribution(cases, obs):
          'raised': 0, 'scripts': {}, 'same_engine_oracle_runs': 0, 'same_engine_oracle_steps': 0,
          'model_not_comparable': MODEL_SKIPPED[0], 'model_cyclic_match_skipped': MODEL_CYCLIC[0],
          'cases_with_writing_bodies_loaded': 0, 'db_goals_in_loaded_bodies': 0, 'queries_on_db_builtins': 0,
+         'mb_meta_goals_in_loaded_bodies': {}, 'mb_queries_on_meta_builtins': {}, 'mb_cases_with_meta_bodies_loaded': 0,
          'families': {}, 'model_by_family[compared,cyclic,fuel]': MODEL_BY_FAMILY,
          'nl_histories_with_nonlifo_restart_on_one_predicate': 0, 'nl_nonlifo_events': 0, 'nl_facts_with_variables': 0,
          'sh_function_objects_registered_on_several_engines': 0, 'sh_of_these_under_different_styles': 0,
@@ -1840,6 +1932,25 @@ def distribution(cases, obs):
             if isinstance(o, dict) and any(x[0] == 'raised' for run in o['interleaved'] for x in run):
                 # an exception in a scale case (e.g. RecursionError of the harness' own stack) would switch the oracle off
                 d['sc_cases_with_an_exception'] = d.get('sc_cases_with_an_exception', 0) + 1
+        def _meta_count(t, acc):
+            if t[0] == 'f':
+                if t[1] in META_BUILTINS:
+                    acc[t[1]] = acc.get(t[1], 0) + 1
+                for a in t[2]:
+                    _meta_count(a, acc)
+        nm = 0
+        for h in c['hist']:
+            for op in h:
+                if op[0] == 'load':
+                    for _, _, cls in c['scripts'][op[2]]:
+                        for _, body in cls:
+                            for g in body:
+                                before = sum(d['mb_meta_goals_in_loaded_bodies'].values())
+                                _meta_count(['f', g[0], g[1]], d['mb_meta_goals_in_loaded_bodies'])
+                                nm += sum(d['mb_meta_goals_in_loaded_bodies'].values()) - before
+                if op[0] == 'start' and op[2] in META_BUILTINS:
+                    d['mb_queries_on_meta_builtins'][op[2]] = d['mb_queries_on_meta_builtins'].get(op[2], 0) + 1
+        d['mb_cases_with_meta_bodies_loaded'] += 1 if nm else 0
         nw = 0
         for h in c['hist']:
             for op in h:
